@@ -146,6 +146,9 @@ Proof.
   - destruct (Z.eqb_spec k n); [|lia]. reflexivity.
 Qed.
 
+Lemma count_true_nonneg m : 0 <= count_true m.
+Proof. unfold count_true. lia. Qed.
+
 Theorem equals_numpy {V} (fill : V) voi q rows cols vii plane :
   let n := count_true vii in
   let H := sumZ rows in
@@ -153,16 +156,23 @@ Theorem equals_numpy {V} (fill : V) voi q rows cols vii plane :
   let pix := concat (tab pair 0 H 0 W) in
   let voil := map (fun p => voi (fst p) (snd p)) pix in
   Forall (fun x => 0 <= x) rows -> Forall (fun x => 0 <= x) cols ->
-  0 < n ->
   (forall i j, 0 <= i < H -> 0 <= j < W -> 0 <= q i j <= n) ->
   gather_chunked fill rows cols (fun rs cs => qnd_block n voi q (sstart rs) (slen rs) (sstart cs) (slen cs)) vii plane
   = unravel (Z.to_nat H) (Z.to_nat W) (np_sample fill vii voil (np_index_array q voil pix) plane).
 Proof.
-  intros n H W pix voil Hr Hc Hn Hq.
+  intros n H W pix voil Hr Hc Hq.
   rewrite gather_chunked_char by assumption.
-  unfold voil. rewrite (np_sample_char fill vii (fun p => voi (fst p) (snd p)) q pix plane Hn).
-  unfold pix. rewrite unravel_map_tab. cbn [fst snd].
-  apply tab_ext. intros i j Hi Hj. unfold index_pointwise. apply cell_agree. apply Hq; lia.
+  destruct (Z.eq_dec n 0) as [Hz|Hnz].
+  - (* no valid source pixel: numpy takes the _get_empty_sample shortcut, the blockwise path finds nothing *)
+    unfold np_sample. fold n. rewrite Hz. cbn [Z.eqb orb]. unfold voil. rewrite map_map.
+    unfold pix. rewrite (unravel_map_tab (fun _ => fill)).
+    apply tab_ext. intros i j Hi Hj. unfold index_pointwise.
+    specialize (Hq i j ltac:(lia) ltac:(lia)).
+    destruct (Z.ltb_spec (q i j) n); [lia|]. rewrite andb_false_r. reflexivity.
+  - pose proof (count_true_nonneg vii). assert (Hn : 0 < n) by (unfold n in *; lia).
+    unfold voil. rewrite (np_sample_char fill vii (fun p => voi (fst p) (snd p)) q pix plane Hn).
+    unfold pix. rewrite unravel_map_tab. cbn [fst snd].
+    apply tab_ext. intros i j Hi Hj. unfold index_pointwise. apply cell_agree. apply Hq; lia.
 Qed.
 
 (* numpy's pipeline is channel-wise: it commutes with any projection of the per-pixel value vectors *)
